@@ -595,6 +595,20 @@ Definition call_function (f : fname) (args : list value) : res := call (length a
 (* ------------------------------------------------------------------------------------------------ *)
 (* operators *)
 
+(* operators.canonical: the form of a number that does not depend on how it was written or calculated — a whole
+   number has exponent 0, any other has no trailing zero after the decimal point
+   (fast paths, else decimal.RequireFromString(d.String())) *)
+Fixpoint strip_frac_zeros (fuel : nat) (m e : Z) : dec :=
+  match fuel with
+  | O => Dec m e
+  | S f => if ((e <? 0) && (Z.rem m 10 =? 0))%Z then strip_frac_zeros f (Z.quot m 10) (e + 1)%Z else Dec m e
+  end.
+
+Definition dec_canonical (d : dec) : dec :=
+  if (mant d =? 0)%Z then Dec 0 0
+  else if (0 <=? dexp d)%Z then Dec (mant d * 10 ^ dexp d) 0
+  else strip_frac_zeros (Z.to_nat (- dexp d)) (mant d) (dexp d).
+
 (* operators/builtin.go: maxNumberExponent, exponentOutOfRange (Multiply adds the decimal exponents) *)
 Definition max_number_exponent : Z := 100000%Z.
 Definition exponent_out_of_range (e : Z) : bool := ((e <? - max_number_exponent) || (max_number_exponent <? e))%Z.
@@ -635,14 +649,23 @@ Definition dec_pow (a b : dec) : res :=
              end
     end.
 
-(* operators.Exponent *)
-Definition pow_body (a b : dec) : res :=
+(* operators.Exponent: guards and power on the canonical base and power *)
+Definition pow_body (x y : dec) : res :=
+  let a := dec_canonical x in
+  let b := dec_canonical y in
   if exponent_out_of_range (dexp a * dec_trunc b) then Ret VErr
   else if (mant b <? 0)%Z && exponent_out_of_range (num_digits a * dec_trunc b) then Ret VErr
   else if negb (dec_is_integer b)
           && ((max_fractional_power_digits <? number_magnitude a)%Z || (max_fractional_power_digits <? number_magnitude b)%Z)
        then Ret VErr
   else dec_pow a b.
+
+(* operators.Multiply: limit and product on the canonical factors *)
+Definition mul_body (x y : dec) : res :=
+  let a := dec_canonical x in
+  let b := dec_canonical y in
+  if exponent_out_of_range (dexp a + dexp b) then Ret VErr
+  else match dec_mul a b with Some p => Ret (VNum p) | None => Panic PExponent end.
 
 Inductive binop := OConcat | OEq | ONeq | OAdd | OSub | OMul | ODiv | OPow | OLt | OLte | OGt | OGte.
 
@@ -661,9 +684,7 @@ Definition eval_binop (op : binop) : value -> value -> res :=
   | ONeq => textual_binary (fun a b => Ret (VBool (negb (text_eqb a b))))
   | OAdd => numerical_binary (fun a b => Ret (VNum (dec_add a b)))
   | OSub => numerical_binary (fun a b => Ret (VNum (dec_sub a b)))
-  | OMul => numerical_binary (fun a b =>
-              if exponent_out_of_range (dexp a + dexp b) then Ret VErr
-              else match dec_mul a b with Some p => Ret (VNum p) | None => Panic PExponent end)
+  | OMul => numerical_binary mul_body
   | ODiv => numerical_binary (fun a b =>
               if dec_eqb b (Dec 0 0) then Ret VErr
               else match dec_div a b with inr q => Ret (VNum q) | inl c => Panic c end)
